@@ -392,7 +392,7 @@ def _native_battery(out, scenario, vectors, what):
                             detail=f"{val['native_violations']} native violation(s) on the validation vectors although every obligation is discharged", bodies=[]))
     # "a message is left unanswered only if it is a notification" - and then really unanswered: the WebSocket reply decision (shared with C02)
     from . import C02 as _c02
-    out.append(_c02._ws_reply_decision(srv))
+    out.append(_c02._ws_reply_decision(R.bodies("server")))
     # "the handler's result for exactly those params": positional params reach the handler through ParamsSequence (C16 decides the decoder in full;
     # here the part a reply depends on: an acceptable element is never refused and the j-th read is the j-th element, whatever the spacing of the text)
     from . import C16 as _c16
